@@ -75,12 +75,12 @@ def damage_list(kind: str, size: int, tier: str) -> List[Tuple[str, Any]]:
     out: List[Tuple[str, Any]] = [("delete", None)]
     cuts = {0, 1, 4, size // 4, size // 2, (3 * size) // 4, size - 8, size - 4, size - 1}
     if tier == "thorough":
-        cuts |= set(range(0, size, max(1, size // 40)))
+        cuts |= set(range(0, size, max(1, size // 200)))
     for c in sorted(x for x in cuts if 0 <= x < size):
         out.append(("truncate", c))
     flips = {0, 2, size // 3, size // 2, size - 5, size - 1}
     if tier == "thorough":
-        flips |= set(range(0, size, max(1, size // 60)))
+        flips |= set(range(0, size, max(1, size // 300)))
     for p in sorted(x for x in flips if 0 <= x < size):
         out.append(("flip", p))
     out.append(("garbage", None))
@@ -113,8 +113,8 @@ class C14(Check):
     exhaustive = True
     rule = ("table: 5 commits incl. a multi-file transaction and a partial delete (rewritten manifest); every file "
             "reachable from the current snapshot (current metadata JSON, manifest list, each manifest, each data file) "
-            "+ the pointer x damage {delete; truncate at 0,1,4,1/4,1/2,3/4,len-8,len-4,len-1 (thorough: ~40 offsets); "
-            "flip one byte at 6 offsets (thorough: ~60); 64 random bytes; '{}' JSON; swap with a sibling of the same "
+            "+ the pointer x damage {delete; truncate at 0,1,4,1/4,1/2,3/4,len-8,len-4,len-1 (thorough: ~200 offsets); "
+            "flip one byte at 6 offsets (thorough: ~300); 64 random bytes; '{}' JSON; swap with a sibling of the same "
             "kind; one bookkeeping field of one manifest-list / manifest entry changed in still-valid Avro; transient error on the first read of that file; data files: one byte flipped (file replaced) right after "
             "the read call's first access of the file} x 11 read API/option variants each through a fresh "
             "handle; non-trivial = the damaged file is one the API depends on and the outcome was judged; distinct by "
